@@ -263,6 +263,17 @@ class Engine(ExprMixin, CallMixin, StmtMixin):
             return T.sv_bool(TH.distinct_t(self.ev(e.args[0], p).t))
         if fn == "strict":
             return T.sv_bool(TH.strict(self.ev(e.args[0], p).t))
+        if fn == "psum":         # psum(edge_list, weights_or_None, j, k)
+            el, ws, j, k = (self.ev(a, p) for a in e.args)
+            if not isinstance(el.ty, T.Seq):
+                raise ContractError("psum over a non-positional list")
+            if ws.ty == T.NONE:
+                hw, aw = z3.BoolVal(False), z3.K(T.I, z3.RealVal(0))
+            elif isinstance(ws.ty, T.Opt):
+                hw, aw = z3.Not(ws.is_none), ws.val.at
+            else:
+                hw, aw = z3.BoolVal(True), ws.at
+            return T.sv_real(TH.PSUM(el.at, hw, aw, self.coerce(j, T.INT).t, k.t))
         if fn == "listing":      # list(S): every member of the set once
             v = self.ev(e.args[0], p)
             if isinstance(v.ty, T.Map):
